@@ -851,6 +851,12 @@ def normalise_poly(st, p, depth=0):
                 t = normalise(st, a[1])
                 if t != a[1]:
                     mapping[a] = Poly.atom(("nzero", t))
+            elif a[0] == "ncomp" and len(a) == 4 and depth < 3:
+                # the number of classes of a coequalizer: over the normal forms of the two legs
+                x, y = normalise(st, deep_degenerate(st, a[1], 30)), normalise(st, deep_degenerate(st, a[2], 30))
+                n = normalise_poly(st, as_poly(a[3]), depth + 1)
+                if (x, y, n) != (a[1], a[2], a[3]):
+                    mapping[a] = Poly.atom(("ncomp", x, y, n))
         except Exception:
             continue
     return p.subst(mapping) if mapping else p
